@@ -91,7 +91,7 @@ def build(idx, sym, spec, m=None, top=True):
         def smap(mt, mp):
             root = mp.get('sourceRoot')
             return idx.mk('SourceMap', version=IntV(3, 'u8'), file=none(), sources=arcvec(mp.get('sources', [])), sources_content=arcvec(mp.get('sourcesContent', [])),
-                          names=arcvec(mp.get('names', [])), mappings=Ref(Cell(mt, tag='heap')), source_root=(none() if root is None else some(Ref(Cell(mkstr(root), tag='heap')))), debug_id=none())
+                          names=arcvec(mp.get('names', [])), mappings=Ref(Cell(mt, tag='heap')), source_root=(none() if root is None else some(Ref(Cell(mkstr(root), tag='heap')))), debug_id=(none() if mp.get('debugId') is None else some(Ref(Cell(mkstr(mp['debugId']), tag='heap')))))
         inner_map = none()
         if spec.get('inner_map') is not None:
             imt = mapping_text(sym, spec.get('original_source') or '', spec['inner_map'], out, '_inner_mappings')
@@ -376,7 +376,8 @@ def source_map_of(m, st, mdl, v, idx):
         x = sv(x)
         return [det_text(m, st, mdl, as_text(e), False) for e in x.f]
     root = sm.f[idx.fld('SourceMap', 'source_root')]
-    return {'sourceRoot': None if root.disc == 0 else det_text(m, st, mdl, as_text(root.payload[1].f[0]), False),
+    dbg = sm.f[idx.fld('SourceMap', 'debug_id')]
+    return {'debugId': None if dbg.disc == 0 else det_text(m, st, mdl, as_text(dbg.payload[1].f[0]), False), 'sourceRoot': None if root.disc == 0 else det_text(m, st, mdl, as_text(root.payload[1].f[0]), False),
             'mappings': det_text(m, st, mdl, as_text(sm.f[idx.fld('SourceMap', 'mappings')]), False),
             'sources': strs(sm.f[idx.fld('SourceMap', 'sources')]), 'sourcesContent': strs(sm.f[idx.fld('SourceMap', 'sources_content')]),
             'names': strs(sm.f[idx.fld('SourceMap', 'names')])}
